@@ -70,6 +70,8 @@ func (c Cfg) env() map[string]string {
 	e := map[string]string{}
 	if c.Buf > 0 {
 		e["SCIPIPE_BUFSIZE"] = strconv.Itoa(c.Buf)
+	} else if c.Buf == -1 {
+		e["SCIPIPE_BUFSIZE"] = "0" // unbuffered connections
 	}
 	if c.Procs > 0 {
 		e["GOMAXPROCS"] = strconv.Itoa(c.Procs)
